@@ -163,4 +163,19 @@ def retryKind : Kind where
       | _, _, _, _ => { st := st, bad := some "retrydelay args" }
     | _, _, _ => { st := st, bad := some "retry line" }
 
+/-! ## `Once` on the real clock (kind `oncelive`)
+
+`spin n`: `n` calls of `Once` on a cache whose entries live for a few microseconds, with a callback whose results are all
+non-zero.  `Once` reads the cache entry once per call (`Model.Funcs`: one `get`), so whatever instant the call happens
+at, it returns the stored first result or the result of a new run — never the zero value (`once_value_nonzero`). -/
+def onceLiveKind : Kind where
+  σ := Unit
+  init := fun _ => some ()
+  step := fun st l =>
+    match l.op, l.args with
+    | "spin", [.int _] =>
+      { st := st, model := some [.atom "ok"], tags := ["once:entry-expires-during-calls"], nontrivial := true
+        spec := if l.res == [.atom "ok"] then none else some "once:first-result-or-new-run:expiry-inside-a-call" }
+    | _, _ => { st := st, bad := some s!"oncelive: bad line {l.op}" }
+
 end GoguVerif.Kinds.Funcs
